@@ -380,6 +380,8 @@ def track_canon(track):
 
 
 class AccumulateSpec(BfsSpec):
+    observe_prefix = True      # the invariant's observations are made at every step of a replayed history
+
     """canon: a Track's behaviour depends on its bars (per bar: key, meter/length, entries, the float cursor
     current_beat) and on the instrument (none here).  Every action builds fresh argument objects."""
 
@@ -892,6 +894,8 @@ def rebuild_composition(tracks):
 
 
 class CompositionSpec(BfsSpec):
+    observe_prefix = True      # the invariant's observations are made at every step of a replayed history
+
     """canon: a Composition's behaviour depends on its tracks (each by track_canon) and selected_tracks."""
 
     def params(self):
